@@ -34,6 +34,66 @@ def lookup_by_spi(ctx, rule):
               detail={'returned': tq.text(BS.ret())})
 
 
+def successor_registration(ctx, esc, rule):
+    """the controller's table gains the IKE_SA made by a rekey exactly when the old IKE_SA is in a state in which that successor is
+    established (REKEYED on the responder, DEL_AFTER_REKEY_IKE_SA_REQ_SENT on the initiator) - never a half-built object that a refused
+    or still outstanding rekey left behind (it would be found by address and by SPI like a real IKE_SA)"""
+    prog = ctx.prog
+    dm = ctx.func('ikesacontroller.IkeSaController.dispatch_message')
+    g = esc.add_exception_edges(dm)
+    ts = common.typestate(ctx, esc)
+    S = ts.S
+    ikesa = prog.cls('ikesa.IkeSa')
+    live = set()
+    nest = 0
+    succ_state = ('attr', ('attr', ('param', 'self'), 'new_ike_sa'), 'state')
+    for fi in ikesa.methods.values():
+        if not isinstance(fi.node, ast.FunctionDef):
+            continue
+        gg = esc.add_exception_edges(fi)
+        # by value term: `self.new_ike_sa.state = ...` also when the successor is held in a local
+        sv_ = ctx.sval(fi)
+        bases = {succ_state[1]} | {strip_ids(v) for t, v, pc, st, _ in sv_.stores if strip_ids(t) == succ_state[1]}
+        est_stmts = {id(st) for t, v, pc, st, _ in sv_.stores if strip_ids(t)[0] == 'attr' and strip_ids(t)[2] == 'state'
+                     and strip_ids(t)[1] in bases and tq.text(v).endswith('State.ESTABLISHED')}
+        for n in gg.nodes:
+            if n.kind == 'stmt' and isinstance(n.ast, ast.Assign) and id(n.ast) in est_stmts:
+                nest += 1
+                arriving = ts.states_at(fi, n)
+                for (s2, k) in ts.flow_from(fi, n, arriving):
+                    if k in ('ret', 'retv'):
+                        live.add(s2)
+    ctx.floor('%s sites that establish the successor IKE_SA' % rule, nest, 2)
+
+    def successor_of(e):
+        """text of X when e reads X.new_ike_sa - directly or through a local bound once to it"""
+        if isinstance(e, ast.Attribute) and e.attr == 'new_ike_sa':
+            return src(e.value)
+        if isinstance(e, ast.Name):
+            defs = [st for st in ast.walk(dm.node) if isinstance(st, ast.Assign) and any(
+                isinstance(t, ast.Name) and t.id == e.id for tg in st.targets for t in ast.walk(tg))]
+            if len(defs) == 1 and len(defs[0].targets) == 1 and isinstance(defs[0].targets[0], ast.Name):
+                return successor_of(defs[0].value)
+        return None
+    regs = [(n, x) for n, x in common.nodes_calling(ctx, dm, g, common.calls_named('append'))
+            if x.args and src(x.func.value).endswith('ike_sas') and successor_of(x.args[0]) is not None]
+    ctx.floor('the registration of the rekeyed IKE_SA in dispatch_message', len(regs), 1, rule=rule)
+    for n, x in regs:
+        subj = successor_of(x.args[0]) + '.state'
+        sets = [S.eval_cond(c.ast)[1] for c in g.nodes if c.kind == 'cond' and S.eval_cond(c.ast) is not None
+                and S.eval_cond(c.ast)[0] == subj and common.dominated_by_edge(g, n, c, 'T')]
+        obs = frozenset.intersection(*sets) if sets else None
+        ctx.check(obs is not None and set(obs) == live, rule, 'the successor is registered exactly in the states in '
+                  'which the old IKE_SA has an established successor: %s (observed: %s)' % (
+                      sorted(live), sorted(obs) if obs is not None else None),
+                  key=(rule, 'registration-states', ','.join(sorted(obs or []))), site=ctx.site(dm, x))
+        # registration happens after the message was processed
+        pm = [m for m, y in common.nodes_calling(ctx, dm, g, common.calls_named('process_message'))]
+        ctx.check(all(n.id not in g.reach([g.entry], blocked_nodes=[m]) for m in pm), rule,
+                  'registration looks at the state after the datagram was processed', key=(rule, 'registration-order'),
+                  site=ctx.site(dm, x))
+
+
 def run(ctx):
     prog, res = ctx.prog, ctx.res
     esc = ctx.escape('engine', kills=common.engine_kills(ctx))
@@ -218,50 +278,12 @@ def run(ctx):
     common.parse_errors_propagate(ctx, 'D2')
     common.from_exception_total(ctx, esc, 'D2')
     # ---------------------------------------------------------------- D3
-    ts = common.typestate(ctx, esc)
-    S = ts.S
     # an entry leaves the table only in state DELETED; an IKE_SA that waits for a response reaches DELETED through the
     # retransmission timer's give-up edge, so every request-outstanding state has to be covered by that timer
+    ts = common.typestate(ctx, esc)
     from .c09 import timer_coverage
     timer_coverage(ctx, ts, 'D2')
-    ikesa = prog.cls('ikesa.IkeSa')
-    live = set()
-    nest = 0
-    succ_state = ('attr', ('attr', ('param', 'self'), 'new_ike_sa'), 'state')
-    for fi in ikesa.methods.values():
-        if not isinstance(fi.node, ast.FunctionDef):
-            continue
-        gg = esc.add_exception_edges(fi)
-        # by value term: `self.new_ike_sa.state = ...` also when the successor is held in a local
-        sv_ = ctx.sval(fi)
-        bases = {succ_state[1]} | {strip_ids(v) for t, v, pc, st, _ in sv_.stores if strip_ids(t) == succ_state[1]}
-        est_stmts = {id(st) for t, v, pc, st, _ in sv_.stores if strip_ids(t)[0] == 'attr' and strip_ids(t)[2] == 'state'
-                     and strip_ids(t)[1] in bases and tq.text(v).endswith('State.ESTABLISHED')}
-        for n in gg.nodes:
-            if n.kind == 'stmt' and isinstance(n.ast, ast.Assign) and id(n.ast) in est_stmts:
-                nest += 1
-                arriving = ts.states_at(fi, n)
-                for (s2, k) in ts.flow_from(fi, n, arriving):
-                    if k in ('ret', 'retv'):
-                        live.add(s2)
-    ctx.floor('D3 sites that establish the successor IKE_SA', nest, 2)
-    regs = [(n, x) for n, x in common.nodes_calling(ctx, dm, g, common.calls_named('append'))
-            if x.args and src(x.args[0]).endswith('.new_ike_sa')]
-    ctx.floor('the registration of the rekeyed IKE_SA in dispatch_message', len(regs), 1, rule='D3')
-    for n, x in regs:
-        subj = src(x.args[0]).rsplit('.', 1)[0] + '.state'
-        sets = [S.eval_cond(c.ast)[1] for c in g.nodes if c.kind == 'cond' and S.eval_cond(c.ast) is not None
-                and S.eval_cond(c.ast)[0] == subj and common.dominated_by_edge(g, n, c, 'T')]
-        obs = frozenset.intersection(*sets) if sets else None
-        ctx.check(obs is not None and set(obs) == live, 'D3', 'the successor is registered exactly in the states in '
-                  'which the old IKE_SA has an established successor: %s (observed: %s)' % (
-                      sorted(live), sorted(obs) if obs is not None else None),
-                  key=('D3', 'registration-states', ','.join(sorted(obs or []))), site=ctx.site(dm, x))
-        # registration happens after the message was processed
-        pm = [m for m, y in common.nodes_calling(ctx, dm, g, common.calls_named('process_message'))]
-        ctx.check(all(n.id not in g.reach([g.entry], blocked_nodes=[m]) for m in pm), 'D3',
-                  'registration looks at the state after the datagram was processed', key=('D3', 'registration-order'),
-                  site=ctx.site(dm, x))
+    successor_registration(ctx, esc, 'D3')
 
     # ---------------------------------------------------------------- D4
     ml = ctx.func('ikesacontroller.IkeSaController.main_loop')
